@@ -150,7 +150,8 @@ def rule_R1(ctx, prog, label, rule='R1'):
                 raise AnalysisBroken('R1: %s: extraction of the result not recognised' % fname)
             if _var(ex[0].kids[2]) != _var(ids_[0].kids[1]):
                 problems.append('the result is copied from `%s`, but the identity was placed in `%s`' % (pp(ex[0].kids[2])[:20], pp(ids_[0].kids[1])[:20]))
-            extract_node = _node_of(g, ex[0])
+            ex = ex[0]
+            extract_node = _node_of(g, ex)
         else:
             raise AnalysisBroken('R1: %s builds its augmented matrix with %s - recipe not recognised' % (fname, callee_name(augdef)))
         # order
@@ -162,10 +163,22 @@ def rule_R1(ctx, prog, label, rule='R1'):
         if reduce_node.id not in dom.get(extract_node.id, ()):
             problems.append('the result is extracted on a path that did not run the elimination')
         # every return of a non-NULL value is dominated by the extraction
+        # the variable the extraction assigns (`INV = mzd_submatrix(..)` / `result = ..`): elsewhere it only ever holds NULL
+        ex_var = None
+        if extract_node.ast is not None:
+            for a_ in extract_node.ast.walk():
+                if a_.kind == 'BinaryOperator' and a_.op == '=' and strip(a_.kids[0]).kind == 'DeclRefExpr' and any(x is ex for x in a_.kids[1].walk()):
+                    ex_var = strip(a_.kids[0]).refid
+                if a_.kind == 'VarDecl' and a_.kids and a_.init and any(x is ex for x in a_.kids[-1].walk()):
+                    ex_var = a_.id
         for r in f.body.find('ReturnStmt'):
             if r.kids and not is_null(r.kids[0]):
                 rn = g.stmt_node.get(r.uid)
                 if rn is not None and extract_node.id not in dom.get(rn.id, ()):
+                    rv = strip(r.kids[0], casts=True)
+                    if rv.kind == 'DeclRefExpr' and ex_var is not None and rv.refid == ex_var and rv.refid not in [p_.id for p_ in f.params] and \
+                       all(is_null(d_) or any(x is ex for x in d_.walk()) for d_ in fs.defs.get(rv.refid, [])):
+                        continue      # single-exit layout: on the paths round the extraction the result variable is still NULL
                     problems.append('`%s` is reachable without the extraction' % pp(r)[:40])
         rr.ob(not problems, dict(function=fname, augmented=pp(augdef)[:60], reduce=pp(red)[:50]),
               Finding(rule, '%s|%s' % (rule, fname), f.loc, fname, 'inversion recipe broken: ' + '; '.join(problems[:3]), {}, label))
